@@ -60,6 +60,8 @@ def run(tier):
                         extra_cflags="-DVDES_CORE")
     # the API also on a -DNDEBUG build of the shared library (an assert() around a call with an effect disappears there)
     api_nd = tree.so_program("so-ndebug", "vdes.c", "vdes-so-ndebug", defs="-DVDES_SO", libs="-lnettle")
+    # ... and on one for a target where plain char is unsigned
+    api_uc = tree.so_program("so-uchar", "vdes.c", "vdes-so-uchar", defs="-DVDES_SO", libs="-lnettle")
     n_api, n_core, n_salt = (20000, 20000, 2400) if tier == "quick" else (2000000, 1000000, 200000)
     acc = common.Acc()
     nproc = 1 if tier == "quick" else 8
@@ -71,6 +73,7 @@ def run(tier):
             jobs.append(ex.submit(run_tool, acc, run_, core, ["core", str(run_.seed * 100 + i), str(n_core // nproc),
                                                                str(n_salt // nproc)]))
         jobs.append(ex.submit(run_tool, acc, run_, api_nd, ["api", str(run_.seed * 100 + 77), str(2000 if tier == "quick" else 100000)]))
+        jobs.append(ex.submit(run_tool, acc, run_, api_uc, ["api", str(run_.seed * 100 + 78), str(2000 if tier == "quick" else 100000)]))
         results = [j.result() for j in jobs]
     salted = []
     tot = {}
